@@ -126,6 +126,7 @@ type State struct {
 	filePos  map[int]*Term
 	fileName map[int]string
 	locks    map[string]lockTable
+	protected map[int]bool
 }
 
 func (st *State) clone() *State {
@@ -152,6 +153,7 @@ func (st *State) clone() *State {
 	n.nfresh = st.nfresh
 	n.files, n.filePos, n.fileName = st.files, st.filePos, st.fileName
 	n.locks = st.locks
+	n.protected = st.protected
 	if st.ghost != nil {
 		n.ghost = map[string]int{}
 		for k, v := range st.ghost {
